@@ -149,7 +149,7 @@ package keeper
 // Withdraw request (C04): the pool coins to be withdrawn move from the withdrawer into the global escrow account and the
 // pending request records exactly that coin; only the pool's own coin is accepted and never for a disabled pool.
 //@ func (k Keeper) Withdraw
-//@   property C04
+//@   property C04, C06
 //@   let ge = types.GlobalEscrowAddress
 //@   let w = addr(msg.Withdrawer)
 //@   let d = msg.PoolCoin.Denom
@@ -159,6 +159,7 @@ package keeper
 //@   ensures #c04-withdraw-escrowed: result1 == nil ==> bal(ge, d) == old(bal(ge, d)) + msg.PoolCoin.Amount && bal(w, d) == old(bal(w, d)) - msg.PoolCoin.Amount
 //@   ensures #c04-withdraw-request-records-escrow: result1 == nil ==> result0.PoolCoin == msg.PoolCoin && result0.Withdrawer == msg.Withdrawer && result0.PoolId == msg.PoolId && result0.AppId == msg.AppId && k.GetWithdrawRequest(ctx, msg.AppId, msg.PoolId, result0.Id).1 && k.GetWithdrawRequest(ctx, msg.AppId, msg.PoolId, result0.Id).0 == result0
 //@   ensures #c04-withdraw-pool-coin-only: result1 == nil ==> d == old(k.GetPool(ctx, msg.AppId, msg.PoolId).0.PoolCoinDenom) && !old(k.GetPool(ctx, msg.AppId, msg.PoolId).0.Disabled)
+//@   ensures [C06] #c06-only-the-pools-own-shares-are-redeemed: result1 == nil ==> d == old(k.GetPool(ctx, msg.AppId, msg.PoolId).0.PoolCoinDenom)
 
 // Finishing a withdraw request (C04): a finished request is final (a second call changes nothing, so escrowed pool coins
 // are released once); a failed request gets exactly its escrowed pool coin back out of the global escrow, a succeeded one
